@@ -659,6 +659,71 @@ def _future_outcome(fut, quantum, wall):
     return "exception", ("unexpected-value", repr(r)[:100])
 
 
+def _engine_job_outcome(jname, fut, exists):
+    """EngineJob._await_result_async over an already settled stream future, next to a recording fake of the unary
+    (polling) client: -> (outcome kind, detail, unary calls made, times the job was re-created)"""
+    import duet
+    from cirq_google.cloud import quantum
+    from cirq_google.engine import engine_client, engine_job
+    from http import HTTPStatus
+    import types
+
+    _, project_id, _, program_id, _, job_id = jname.split("/")
+    calls, recreated, state = [], [0], {"exists": exists}
+
+    class Client:
+        async def get_job_async(self, project, program, job, return_run_context=False):
+            calls.append("get_job")
+            if not state["exists"]:
+                raise engine_client.EngineException("job not found", HTTPStatus.NOT_FOUND)
+            qj = quantum.QuantumJob(name=jname)
+            qj.execution_status.state = quantum.ExecutionStatus.State.SUCCESS
+            return qj
+
+        async def get_job_results_async(self, project, program, job):
+            calls.append("get_job_results")
+            return quantum.QuantumResult(parent=jname + "#polled")
+
+    context = types.SimpleNamespace(client=Client(), timeout=5, proto_version=None)
+
+    async def recreate():
+        recreated[0] += 1
+        state["exists"] = True
+        return engine_job.EngineJob(project_id, program_id, job_id, context)
+
+    job = engine_job.EngineJob(project_id, program_id, job_id, context, job_result_future=fut, recreate_job=recreate)
+    try:
+        r = duet.run(job._await_result_async)
+        return "result", r.parent, tuple(calls), recreated[0]
+    except BaseException as e:  # noqa: the outcome under observation
+        return "exception", (type(e).__name__, str(e)), tuple(calls), recreated[0]
+
+
+def _judge_engine_jobs(hist):
+    """non-retryable errors surface to the caller; a result is handed over as it is; only a StreamError (the stream gave
+    up on this job but the job may exist) falls back to the unary calls"""
+    bad, n = [], 0
+    for e in hist:
+        if e[0] != "engine-job":
+            continue
+        n += 1
+        _, j, skind, sdetail, kind, detail, calls, recreated = e
+        if skind == "result":
+            if (kind, detail) != ("result", sdetail) or calls or recreated:
+                bad.append(("C20:engine-job:stream-result-not-returned-as-is",
+                            "%s: stream delivered result of %r, EngineJob gave %r after unary calls %r, %d re-creations" % (j, sdetail, (kind, detail), calls, recreated)))
+        elif sdetail[0] == "StreamError":
+            if kind != "result" or detail != j + "#polled" or "get_job" not in calls:
+                bad.append(("C20:engine-job:stream-error-fallback",
+                            "%s: after StreamError the job's result was not fetched by polling: %r, calls %r" % (j, (kind, detail), calls)))
+        else:
+            if (kind, detail) != ("exception", sdetail) or calls or recreated:
+                bad.append(("C20:engine-job:non-retryable-error-not-surfaced",
+                            "%s: the stream failed with %r; EngineJob gave %r after unary calls %r and %d re-creations of the job"
+                            % (j, sdetail, (kind, detail), calls, recreated)))
+    return bad, n
+
+
 def _run_stream(ctx, script, jobs, entry, rng, tag):
     """jobs: list of (program_id, job_id) for the initial submits; script['actions'] may add ('submit', [(prog, job)..]).
     Returns (server, submits {job name: program name}) or None when the watchdog fired."""
@@ -747,9 +812,12 @@ def _run_stream(ctx, script, jobs, entry, rng, tag):
         except Exception:  # noqa
             pass
         return None
-    for j in submits:
+    for idx, j in enumerate(sorted(submits)):
         kind, detail = _future_outcome(server.futures[j], quantum, 5.0)
         server.log("future", j, kind, detail, counters[j])
+        if kind in ("result", "exception"):
+            # one layer up: the EngineJob that owns this stream future (what run_sweep hands to the user)
+            server.log("engine-job", j, kind, detail, *_engine_job_outcome(j, server.futures[j], exists=(idx % 2 == 0)))
     subs = dict(mgr._response_demux._subscribers)
     server.log("demux-left", sum(1 for f in subs.values() if not f.done()), sum(1 for f in subs.values() if f.done()))
     mgr.stop()
@@ -766,6 +834,8 @@ def _run_stream(ctx, script, jobs, entry, rng, tag):
 def _judge_stream(ctx, server, submits, witness, nontrivial_hint):
     hist = list(server.hist)
     bad = EM.check_stream_history(hist, submits, dict(server.ledger.run_count))
+    ebad, n_ejobs = _judge_engine_jobs(hist)
+    bad.extend(ebad)
     d = _S["demux"]
     if d["bad"]:
         bad.extend(d["bad"])
@@ -787,7 +857,7 @@ def _judge_stream(ctx, server, submits, witness, nontrivial_hint):
                            1 for e in hist if e[0] == "future" and e[2] == "result"),
                        "stream:bounded-progress": sum(1 for e in hist if e[0] == "outcome"),
                        "stream:cancel-rpc": sum(1 for e in hist if e[0] in ("cancel", "stop")),
-                       "stream:demux-empty+iterators-stopped": 1},
+                       "stream:demux-empty+iterators-stopped": 1, "engine-job:outcome-of-stream-future": n_ejobs},
             dict(witness, history=fp, log=[list(map(str, e)) for e in hist][:120]))
     ctx.distinct(("stream", fp), nontrivial=len(submits) >= 2 or nfault > 0 or nontrivial_hint)
     ctx.event("stream.histories")
